@@ -144,14 +144,12 @@ func ReadPath(fileRoot string, filePath, fileName []byte) (fullPath string, err 
 		subPath = filepath.Join("/", subPath, string(pathItem.Name))
 	}
 
-	fullPath = filepath.Join(
-		fileRoot,
-		subPath,
-		filepath.Join("/", string(fileName)),
-	)
-	fullPath, err = txtDecoder.String(fullPath)
+	// Only what the client sent is Mac Roman: the file root is a path of this machine and must not be run through the
+	// decoder (a root with a non-ASCII name would turn into a different directory).
+	clientPath, err := txtDecoder.String(filepath.Join(subPath, filepath.Join("/", string(fileName))))
 	if err != nil {
 		return "", fmt.Errorf("invalid filepath encoding: %w", err)
 	}
-	return fullPath, nil
+
+	return filepath.Join(fileRoot, clientPath), nil
 }
